@@ -293,3 +293,5 @@ pub fn run(ctx: &Ctx) -> (Acc, String, bool) {
     );
     (acc, rule, false)
 }
+
+pub const ASSUMPTIONS: &[&str] = &["natural order: numeric (i32 exactly embedded in f64), code-point order for chars, lexicographic by element with the shorter prefix first", "slice/slice pairs are not judged against an order (the property does not settle them); only absence of failure is checked"];
